@@ -32,7 +32,7 @@ def main() -> None:
     print(f"""You are helping to evaluate a verification effort for the Python project semantiva (a framework that compiles YAML pipeline
 configs into typed node graphs with context-key flow analysis, parametric sweeps, deterministic semantic IDs and JSONL execution traces).
 You work ONLY inside the scratch git worktree {wt} (a worktree of the repository at its current HEAD). Do not read or
-touch /verif or /repo; never commit anything. Interpreter: /venv/bin/python (run things as `cd {wt} && PYTHONPATH={wt} /venv/bin/python ...`).
+touch /verif or /repo; never commit anything; NEVER use `git stash` (the stash is shared with other worktrees) - undo with `git checkout -- semantiva` only. Interpreter: /venv/bin/python (run things as `cd {wt} && PYTHONPATH={wt} /venv/bin/python ...`).
 The repository's own test suite: `cd {wt} && PYTHONPATH={wt} /venv/bin/python -m pytest -q -p no:cacheprovider --deselect tests/test_export_ontology.py::test_export_framework_ontology_script`
 (expected on the unchanged tree: 503 passed). There is no network.
 
